@@ -381,7 +381,11 @@ impl ZchState {
                     // participating keys. This procedure erases both classes of typed characters
                     // in order to have the correct typed output for this chord activation.
                     for _ in 0..(self.zchd.zchd_characters_to_delete_on_next_activation
-                        + if is_prioritized_activation {
+                        // The antecedent's output is already part of
+                        // zchd_characters_to_delete_on_next_activation when it was typed in this hold.
+                        + if is_prioritized_activation
+                            && self.zchd.zchd_same_hold_activation_count <= 1
+                        {
                             self.zchd.zchd_prior_activation_output_count
                         } else {
                             0
